@@ -40,6 +40,11 @@ impl<T, E> Clone for Sender<T, E> {
 }
 
 impl<T, E> Sender<T, E> {
+    /// Whether this topic was created for pub/sub (as opposed to request/reply)
+    pub fn is_pubsub(&self) -> bool {
+        matches!(self, Self::Pubsub(_))
+    }
+
     pub async fn send(&mut self, sock: Socket<T, E>) -> Result<()> {
         match self {
             Self::Pubsub(ref mut s) => s.send(sock.unwrap_pubsub()).await?,
